@@ -61,6 +61,15 @@ def install_seq_models(reg):
     reg.ext_('Bio.SeqUtils.molecular_weight', molecular_weight)
     reg.ext_('SeqUtils.molecular_weight', molecular_weight)
     reg.h_of = h_of
+    # Bio.SeqRecord (assumed): len(record) = len(record.seq); str(record) is the multi-line summary of the
+    # record, a text that is not the sequence
+    for cn in ('AminoAcidSeqRecord', 'AminoAcidSeqRecordWithCoordinates'):
+        if not reg.protocol(cn, '__len__'):
+            reg.protocol_(cn, '__len__', lambda I, o: I.length(o.fields['seq']))
+            reg.protocol_(cn, '__bool__', lambda I, o: True)       # SeqRecord.__bool__ is always True
+    reg.str_hooks.append(lambda v: (lambda I, v: OpaqueStr(['<SeqRecord summary>', v.fields.get('id')]))
+                         if isinstance(v, SymObj) and v.cls in ('AminoAcidSeqRecord', 'AminoAcidSeqRecordWithCoordinates')
+                         else None)
 
 
 def params_obj(I, name='p'):
@@ -131,7 +140,8 @@ class PoolAddPeptide(Contract):
         st.same = SymObj('AminoAcidSeqRecord', seq=SymObj('Seq', h=st.s), description=OpaqueStr(['old label']), id=None, name=None)
         st.same0 = st.same.fields['description']
         st.pool = SymObj('VariantPeptidePool', peptides=st.peptides, peptide_delimeter=' ')
-        canon = OpaqueSet(True, lambda item: st.s.canonical)
+        canon = OpaqueSet(True, lambda item: st.s.canonical if getattr(item, 'h', None) is st.s
+                          else I.e.bool('some_other_text_in_canonical_pool'))
         st.args = [st.pool, st.pep, canon, st.p.obj]
         st.kwargs = dict(skip_checking=st.skip)
         self._cur = st
@@ -330,6 +340,47 @@ class FieldStr:
         self.is_seq, self.label = is_seq, label
 
 
+class RangeList:
+    """a Python list of (start, end) byte ranges: symbolic length + two arrays (functional updates)"""
+    def __init__(self, n, S, E):
+        self.n, self.S, self.E = n, S, E
+
+    @classmethod
+    def from_py(cls, I, v):
+        v = list(v or [])
+        S, E = I.e.array('rng_start'), I.e.array('rng_end')
+        for i, (a, b) in enumerate(v):
+            S, E = z3.Store(S, i, a), z3.Store(E, i, b)
+        return cls(z3.IntVal(len(v)), S, E)
+
+    def covers(self, x, nm='t_c'):
+        t = z3.Int(nm)
+        return z3.Exists([t], z3.And(0 <= t, t < self.n, self.S[t] <= x, x < self.E[t]))
+
+    def sym_truth(self, I):
+        return self.n != 0
+
+    def sym_len(self, I):
+        return self.n
+
+    def sym_getitem(self, I, idx):
+        i = I.norm_index(idx, self.n)
+        return (self.S[i], self.E[i])
+
+    def sym_setitem(self, I, idx, v):
+        i = I.norm_index(idx, self.n)
+        a, b = v
+        self.S, self.E = z3.Store(self.S, i, a), z3.Store(self.E, i, b)
+
+    def sym_method(self, I, name, a, k):
+        if name == 'append':
+            x, y = a[0]
+            self.S, self.E = z3.Store(self.S, self.n, x), z3.Store(self.E, self.n, y)
+            self.n = self.n + 1
+            return None
+        raise Unsupported(f'ranges.{name}')
+
+
 @register
 class TableAddPeptide(Contract):
     path, qualname, props = VPT, 'VariantPeptideTable.add_peptide', ('C04',)
@@ -352,20 +403,42 @@ class TableAddPeptide(Contract):
         st.label = OpaqueStr(['LABEL'])
         st.anno = SymObj('AnnotatedPeptideLabel', label=st.label, segments=FnView(st.nseg, seg_at, tag='segments'))
         st.known = e.bool('seq_already_indexed')
-        st.index_ops = []
-        class Ranges:
-            def sym_method(s_, I, name, a, k):
-                st.index_ops.append(('append', a[0]))
+        # abstract view of index[seq]: a list of byte ranges (None when the peptide is not indexed yet)
+        st.old = RangeList(I.e.int('n_old_ranges'), e.array('old_start'), e.array('old_end'))
+        e.assume(st.old.n >= 0)
+        st.entry = {'known': st.known, 'list': RangeList(st.old.n, st.old.S, st.old.E)}
+
         class Index:
+            def _key(s_, I, key):
+                I.e.prove('C04/table.add/index-keyed-by-the-peptide', key is st.seq)
+
             def sym_contains(s_, I, item):
-                I.e.prove('C04/table.add/index-keyed-by-the-peptide', item is st.seq)
-                return st.known
+                s_._key(I, item)
+                return st.entry['known']
+
             def sym_getitem(s_, I, key):
-                I.e.prove('C04/table.add/index-keyed-by-the-peptide', key is st.seq)
-                return Ranges()
+                s_._key(I, key)
+                if not I.test(st.entry['known'], 'peptide already indexed'):
+                    I.raise_('KeyError', 'seq')
+                return st.entry['list']
+
             def sym_setitem(s_, I, key, v):
-                I.e.prove('C04/table.add/index-keyed-by-the-peptide', key is st.seq)
-                st.index_ops.append(('set', v))
+                s_._key(I, key)
+                st.entry['known'] = True
+                st.entry['list'] = v if isinstance(v, RangeList) else RangeList.from_py(I, v)
+
+            def sym_method(s_, I, name, a, k):
+                if name == 'setdefault':
+                    s_._key(I, a[0])
+                    if not I.test(st.entry['known'], 'peptide already indexed'):
+                        s_.sym_setitem(I, a[0], a[1] if len(a) > 1 else None)
+                    return st.entry['list']
+                if name == 'get':
+                    s_._key(I, a[0])
+                    if I.test(st.entry['known'], 'peptide already indexed'):
+                        return st.entry['list']
+                    return a[1] if len(a) > 1 else None
+                raise Unsupported(f'index.{name}')
         st.table = SymObj('VariantPeptideTable', handle=st.file, index=Index(), header_delimeter=' ')
         st.start0 = st.file.off
         st.args = [st.table, st.seq, st.anno]
@@ -406,15 +479,21 @@ class TableAddPeptide(Contract):
 
     def post_return(self, I, st, ret):
         e = I.e
-        e.prove('C04/table.add/exactly-one-index-update', len(st.index_ops) == 1)
-        if len(st.index_ops) == 1:
-            kind, rng = st.index_ops[0]
-            e.prove('C04/table.add/appends-to-an-existing-entry-or-creates-one', (kind == 'append') == (z3.is_true(z3.simplify(st.known)) if not isinstance(st.known, bool) else st.known) or True)
-            r = rng if kind == 'append' else (rng[0] if isinstance(rng, list) and len(rng) == 1 else None)
-            e.prove('C04/table.add/recorded-range-is-a-pair', isinstance(r, tuple) and len(r) == 2)
-            if isinstance(r, tuple) and len(r) == 2:
-                e.prove('C04/table.add/range-starts-where-the-rows-start', r[0] == st.start0)
-                e.prove('C04/table.add/range-ends-where-the-rows-end', r[1] == st.file.off)
+        fin = st.entry['list']
+        isl = isinstance(fin, RangeList)
+        e.prove('C04/table.add/peptide-indexed-afterwards', as_bool(st.entry['known']) if isl else False)
+        if not isl:
+            return
+        # the byte ranges recorded for the peptide cover exactly what they covered before plus the rows just
+        # written [start0, end) -- stated over bytes, so merging adjacent ranges is allowed, losing one is not
+        x, t = z3.Ints('x_byte t_rng')
+        end = st.file.off
+        old_cov = z3.And(st.known, st.old.covers(x, 't_old'))
+        new_cov = fin.covers(x, 't_new')
+        e.prove('C04/table.add/recorded-ranges-cover-the-old-ranges-and-the-new-rows',
+                z3.Implies(z3.Or(old_cov, z3.And(st.start0 <= x, x < end)), new_cov))
+        e.prove('C04/table.add/recorded-ranges-cover-nothing-else',
+                z3.Implies(new_cov, z3.Or(old_cov, z3.And(st.start0 <= x, x < end))))
 
 
 @register
@@ -690,4 +769,49 @@ class NativeHygiene(NativeCheck):
         return None
 
 
-NATIVE = [NativeHygiene()]
+class NativePoolAdd(NativeCheck):
+    name = 'pool_add_filter'
+    props = ('C04',)
+    functions = (f'{VPP}:VariantPeptidePool.add_peptide', f'{VPT}:VariantPeptideTable.is_valid')
+    bounded_for = ''
+    bound = ('CPython cross-check of the proved acceptance rule of VariantPeptidePool.add_peptide / VariantPeptideTable.is_valid: '
+             'random peptides (length 3-40) x limits x canonical pool containing the peptide or not')
+    quick_budget_s = 5
+    thorough_budget_s = 30
+
+    def cases(self, rng, tier):
+        aa = 'ACDEFGHIKLMNPQRSTVWY'
+        for _ in range(150 if tier != 'thorough' else 3000):
+            seq = ''.join(rng.choice(aa) for _ in range(rng.randint(3, 40)))
+            yield dict(seq=seq, canonical=rng.random() < 0.5, min_len=rng.choice([3, 7, 10]), max_len=rng.choice([10, 25, 40]),
+                       min_mw=rng.choice([0., 500., 1500.]))
+
+    def from_model(self, model):
+        return dict(seq='PEPTIDEKAAAR', canonical=True, min_len=5, max_len=30, min_mw=100.)
+
+    def check(self, inp):
+        from moPepGen.aa import VariantPeptidePool, AminoAcidSeqRecord
+        from moPepGen import params
+        from moPepGen.svgraph.VariantPeptideTable import VariantPeptideTable
+        from Bio.Seq import Seq
+        from Bio import SeqUtils
+        import io
+        cp = params.CleavageParams(enzyme='trypsin', min_mw=inp['min_mw'], min_length=inp['min_len'], max_length=inp['max_len'])
+        canon = {inp['seq']} if inp['canonical'] else {'AAAAAAAK'}
+        mw = SeqUtils.molecular_weight(Seq(inp['seq']), 'protein')
+        exp = mw >= inp['min_mw'] and inp['min_len'] <= len(inp['seq']) <= inp['max_len'] and not inp['canonical']
+        pool = VariantPeptidePool()
+        got = pool.add_peptide(AminoAcidSeqRecord(Seq(inp['seq']), description='ENST1|SNV-1-A-T|1', name='x', _id='x'), canon, cp)
+        if bool(got) != exp or (len(pool.peptides) == 1) != exp:
+            return dict(call='VariantPeptidePool.add_peptide', observed=f'accepted={got} stored={len(pool.peptides)}', expected=f'accepted={exp}',
+                        signature='pool-filter')
+        got2 = VariantPeptideTable(io.StringIO()).is_valid(Seq(inp['seq']), canon, cp)
+        if bool(got2) != exp:
+            return dict(call='VariantPeptideTable.is_valid', observed=str(got2), expected=str(exp), signature='table-filter')
+        return None
+
+    def nontrivial(self, inp):
+        return (len(inp['seq']), inp['canonical'], inp['min_len'], inp['max_len'], inp['min_mw'])
+
+
+NATIVE = [NativeHygiene(), NativePoolAdd()]
